@@ -120,14 +120,16 @@ def run(sess):
         ob.inconclusive(f'unsupported: {e}')
     ob.wall_s = time.time() - t1
     sess.add(ob)
+    from . import c06_loop
+    c06_loop.run(sess)
 
 
 META = {
     'explanation': 'C06 (narrow): only the operator binding-power relation of the Pratt parser is decided: infix_binding_power / is_comparison are executed from MIR for every '
                    'Token / BinOp variant and the induced grouping relation is compared with the reference precedence table for every ordered operator pair (pair chosen by the solver).',
     'bounds': 'all 85 Token variants, all 21 BinOp variants, all ordered pairs of the 22 operator tokens',
-    'outside': 'acceptance/rejection of token sequences, arguments, slices, statements, tuples, the Display round trip: almost all of C06. The loop of parse_expr is not executed; its rule '
-               '"continue iff left_bp >= min_bp" is restated in the check and tied back to the real parser only by the native replay.',
+    'outside': 'acceptance/rejection of token sequences beyond two operators, arguments, slices, statements, tuples, the Display round trip: most of C06. The loop of parse_expr IS executed '
+               'symbolically (C06.parse_expr_loop) for streams of three identifier operands with symbolic operator tokens; operand parsing (parse_unary) is a stub.',
     'assumptions': ['the Pratt continuation rule of parse_expr is as restated (trusted; replay parses `a t1 b t2 c`)'],
 }
 
@@ -142,6 +144,15 @@ def ref_group(t1, t2):
 
 def replay_witness(w, rp):
     t1, t2 = w['t1'], w['t2']
+    if w.get('src'):
+        res = rp.run([{'kind': 'parse', 'src': w['src']}], 'dev')[0]
+        got = 'error' if 'err' in res else (res.get('printed') or '').strip()
+        want = w['want']
+        # the native printer writes operators as symbols, the obligation as BinOp names: compare the grouping only
+        import re as _re
+        shape = lambda t: _re.sub(r'[^()a-c ]|not|in', '', t).replace(' ', '')
+        repro = (want == 'error') != (got == 'error') or (want != 'error' and shape(want) != shape(got))
+        return {'reproduced': repro, 'role': 'parse loop grouping', 'detail': f'`{w["src"]}` parses natively as {got}; reference {want}', 'cases': [w['src']]}
     if t1 not in REF or t2 not in REF:
         return {'reproduced': False, 'role': 'binding power', 'detail': f'no replay for non-operator token {t1}/{t2}'}
     s1, s2 = REF[t1][2], REF[t2][2]
